@@ -18,7 +18,7 @@
 From IndModel Require Export Draw.
 Local Open Scope nat_scope.
 
-Definition row := list N.
+Notation row := (list N) (only parsing).
 
 Record term := mkterm {
   t_above : list row;
